@@ -8,7 +8,7 @@ def inst(label, **d):
 h1 = {"name": "h1_alphabet", "src": "h1_alphabet.c", "env": ["ctx", "ctype_model"], "tus": [],
       "unwind": 20, "harness_unwind": 100, "timeout": 300, "mem_gb": 8,
       "functions": ["KSI_base32Decode", "addBits", "makeMask"],
-      "bound": "",
+      "bound": "8-character strings (thorough: 16) with ONE fully symbolic byte (all 256 values; NUL as separate instances) at each position, the other characters a concrete mixed-case letter/digit pattern",
       "instances": [inst("l8_p%d" % p, LEN=8, POS=p) for p in range(8)] + [inst("l8_nul3", LEN=8, POS=3, NUL_AT_POS=1), inst("l8_nul0", LEN=8, POS=0, NUL_AT_POS=1)],
       "thorough": {"instances": [inst("l8_p%d" % p, LEN=8, POS=p) for p in range(8)] + [inst("l16_p%d" % p, LEN=16, POS=p) for p in range(16)]
                    + [inst("l8_nul%d" % p, LEN=8, POS=p, NUL_AT_POS=1) for p in range(8)]}}
@@ -18,7 +18,7 @@ h2_enc = [inst("enc_n%d_g%d" % (n, g), MODE=2, NDATA=n, GROUP=g) for (n, g) in [
 h2 = {"name": "h2_codec", "src": "h2_codec.c", "env": ["ctx", "ctype_model"], "tus": [],
       "unwind": 40, "harness_unwind": 160, "timeout": 300, "mem_gb": 8,
       "functions": ["KSI_base32Encode", "addBits", "readNextBits", "makeMask"],
-      "bound": "",
+      "bound": "addBits on 1..24 symbolic symbols (thorough up to 124 = SHA2-512 publication); KSI_base32Encode on 1..10 symbolic bytes (thorough 33, 45), group length 6 (and 0 where no padding is needed, 4); all values symbolic, lengths concrete",
       "instances": h2_dec + h2_enc,
       "thorough": {"unwind": 160, "timeout": 1800,
                    "instances": h2_dec + h2_enc + [inst("pack_s53", MODE=1, NSYM=53), inst("pack_s72", MODE=1, NSYM=72), inst("pack_s98", MODE=1, NSYM=98), inst("pack_s124", MODE=1, NSYM=124),
@@ -34,7 +34,7 @@ h2z = {"name": "h2z_nogroup_pad", "src": "h2_codec.c", "env": ["ctx", "ctype_mod
 h3 = {"name": "h3_crc", "src": "h3_crc.c", "env": [], "tus": [],
       "unwind": 90, "harness_unwind": 100, "timeout": 600, "mem_gb": 8, "solver": "kissat",
       "functions": ["KSI_crc32", "crc32_table"],
-      "bound": "",
+      "bound": "lemmas 1,2: all 32-bit r / iv and all bytes; lemma 3: n = 2, 3 (thorough 1..4) symbolic bytes and iv; lemma 4: n = 1 (thorough 1..3); lemma 5: every symbol position and every non-zero 5-bit difference on the 33- and 45-byte layout (thorough also 61, 77), substitution and adjacent swap.  The direct whole-message query (h3_crc.c LEMMA 0, 29 symbolic data bytes) was tried for 60 s on cadical and on kissat and did not finish; it is not part of the plan",
       "instances": [inst("l1_table", LEMMA=1), inst("l2_linear", LEMMA=2), inst("l3_chain_n2", LEMMA=3, NBYTES=2), inst("l3_chain_n3", LEMMA=3, NBYTES=3),
                     inst("l4_affine_n1", LEMMA=4, NBYTES=1),
                     inst("l5_subst_33", LEMMA=5, NBYTES=33, KIND=1), inst("l5_swap_33", LEMMA=5, NBYTES=33, KIND=2),
@@ -60,11 +60,16 @@ h4_to_t = h4_to + [h4i("to_sha384_61", MODE=2, NBIN=61, ALGBYTE="0x04"), h4i("to
 h4 = {"name": "h4_pubstring", "src": "h4_pubstring.c", "env": ["ctx", "hash_model", "list_wrap", "fmt_stub"], "tus": ["publicationsfile", "hash", "types_base"],
       "unwind": 10, "harness_unwind": 100, "timeout": 300, "mem_gb": 8, "object_bits": 12,
       "functions": ["KSI_PublicationData_fromBase32", "KSI_PublicationData_toBase32", "KSI_PublicationData_new", "KSI_PublicationData_free", "KSI_DataHash_fromImprint", "KSI_getHashLength"],
-      "bound": "",
+      "bound": "binary lengths 0, 4, 12, 13, 33, 44, 45, 46 (thorough also 41, 61, 76, 77), algorithm byte concrete per instance (SHA-1, SHA2-256, withdrawn 0x03, unassigned 0x0c, 0xff; thorough more), time / digest / stored CRC / CRC value symbolic; base32 codec and CRC replaced by recording models",
       "instances": h4_from + h4_to, "thorough": {"instances": h4_from_t + h4_to_t}}
 
-plan = {"property": "C17", "outside": "", "assumptions": [],
-        "manifest": {"claimed": True, "level_text": "", "level_note": ""},
+plan = {"property": "C17",
+        "outside": "KSI_base32Decode's loop on a string with more than one symbolic character (every symbolic character is a possible '=' / '-' / foreign byte for symbolic execution; 13 such characters time out); the end-to-end single query 'mutate any symbol of any valid string' (replaced by the lemma decomposition); separator placement inside '=' padding; CRC-32 over whole symbolic messages longer than 3 bytes (induction by hand from lemmas 1-3)",
+        "assumptions": ["C locale ctype table of this machine's glibc for isdigit (env/ctype_model.c); toupper as modelled by CBMC's library (ASCII)",
+                        "strlen replaced by a model that proves the length the harness expects (common/c17_strlen.h)"],
+        "manifest": {"claimed": True,
+                     "level_text": "Compositional, every part decided by the SAT solver on the real C text: (1) KSI_base32Decode with one fully symbolic byte at each position of an 8-character string: letters and 2-7 contribute exactly their 5-bit value, '-' is skipped, '=' / NUL end the data, any other byte is rejected or contributes no bits; (2) addBits / readNextBits / KSI_base32Encode equal a reference bit packer written from RFC 4648 for all data of each length in the bound, and unpacking the encoder's own symbols returns the data; (3) KSI_crc32: table step = 8 bitwise steps of 0xEDB88320 for all inputs, GF(2)-linearity of a step, chaining, affinity, and - with the real function over the 33/45-byte publication layout - every single-symbol substitution and every adjacent-symbol swap has a non-zero syndrome unless it touches only trailing padding bits; (4) KSI_PublicationData_fromBase32 / toBase32 on recording models of codec and CRC: 8-byte big-endian time, imprint, big-endian CRC over both, group length 6; too short, checksum mismatch, unknown algorithm and wrong total length rejected with no object returned; round trip returns time and imprint.",
+                     "level_note": "The four parts are glued by hand (induction on the length for the CRC; 'the decoder loop applies the per-character dispatch of (1) and the packer of (2) to each character in turn' by reading 25 lines).  Lengths are bounded as listed per harness; CBMC C semantics; ctype/strlen models as stated.  Two genuine defects are reported by this check until fixed: F13 (digits 0,1,8,9 decode as 31) and a heap overflow of KSI_base32Encode with group length 0 (FINDINGS.md)."},
         "harnesses": [h1, h2, h2z, h3, h4]}
 json.dump(plan, open(os.path.join(HERE, "plan.json"), "w"), indent=1)
 print("wrote plan.json")
